@@ -1,4 +1,5 @@
 import PyaModel.Proofs.C13
+import PyaModel.Generated.ArgSpecCaches
 /-!
 # Props/C13 — static and runtime views of declarations agree
 
@@ -314,12 +315,41 @@ theorem call_verdict_agree (env : NameEnv) (d : DefArgs) (h : ParamsAgree env d)
     obtain ⟨hb, ha, hr⟩ := toBindSig_of_core hc
     simp [callView, hb, ha, hr]
 
+/-! ## 6. several modules, one Checker -/
+
+/-- **A function's runtime signature does not depend on what the Checker did before (full).** For every
+run — any sequence of signature requests (function object, its module environment, its header) put to
+one Checker, where a function object always comes with its own environment and header — every answer
+equals the answer of a fresh Checker: the only state, `known_argspecs`, is keyed by the function
+object. In particular two modules binding the same name (`Item`, a TypeVar, an alias) to different
+objects do not influence each other, in either order. -/
+theorem multi_module_independent (run : List (FnId × NameEnv × DefArgs))
+    (hc : ∀ x ∈ run, ∀ y ∈ run, x.1 = y.1 → x.2 = y.2) :
+    runSt ⟨[]⟩ run = runAlone run :=
+  runSt_eq_alone run hc ⟨[]⟩ (fun _ _ h => by simp at h)
+
+/-- **The model accounts for every per-Checker cache of the signature route (regenerated
+obligation).** The containers found in the live `arg_spec.py` / `annotations.py` / `functions.py`
+that can outlive one function, with the key expressions they are stored under, are exactly the
+registered ones. A new cache (or a coarser key) breaks this and sends the check into its widened search. -/
+theorem argspec_caches_registered : argspecCaches = registeredCaches := by decide
+
 /-! ### witnesses -/
 
 def noAnn (n : String) : PArg := ⟨n, none⟩
 def hdr0 : DefArgs :=
   { posonly := [], args := [], vararg := none, kwonly := [], kwDefaults := [], kwarg := none, defaults := [],
     returns := none, methodOf := none, future := false }
+/-- non-vacuity: two modules binding name 0 to different classes, the same header `def f(x: "N0")`,
+asked in both orders and twice: every answer is the module's own class -/
+example :
+    let envA : NameEnv := ⟨[(0, .cls 23)], [(0, .cls 23)], []⟩
+    let envB : NameEnv := ⟨[(0, .cls 24)], [(0, .cls 24)], []⟩
+    let d : DefArgs := { hdr0 with args := [⟨"x", some (.str (.name 0))⟩] }
+    (runSt ⟨[]⟩ [((0, 0), envA, d), ((1, 0), envB, d), ((0, 0), envA, d)]).map
+      (fun r => r.map fun s => s.params.map fun p => match p.ann with | .typed c => c | _ => 0) =
+      [some [23], some [24], some [23]] := by decide +kernel
+
 /-- `def f(__x): ...` -/
 def wDunder : DefArgs := { hdr0 with args := [noAnn "__x"] }
 /-- `def f(x=1): ...` -/
